@@ -13,7 +13,7 @@ PROP = {
                   "Defined names are covered by the harness oracle only (not modelled).",
     "level_note": "Trusted: Lean kernel + 3 standard axioms; the hand model's faithfulness as exercised by the correspondence stream; "
                   "the C17 coordinate codecs (proved there); the harness' independent AST shifter (fx.rs).",
-    "expect_theorems": ["C08_terminates", "C08_nonrefs_untouched", "C08_insert_partial", "C08_insert_fails", "C08_insert_tokens_partial", "C08_remove", "C08_remove_partial"],
+    "expect_theorems": ["C08_kernels_match_source", "C08_terminates", "C08_nonrefs_untouched", "C08_insert_partial", "C08_insert_fails", "C08_insert_tokens_partial", "C08_remove", "C08_remove_partial"],
     "rule": "formulas from the AST grammar of the property (as C09; sheet qualifiers: none, Sheet1, 'Sheet1', 'My Sheet', 'It''s', a non-existent "
             "sheet, external-workbook prefixes) placed on any of the three sheets {Sheet1, My Sheet, It's}; histories of 4 edits "
             "(insert/remove x row/column, position 1..14 or next to the grid limit, 1..4 lines, on any sheet), applied at workbook level "
